@@ -262,6 +262,22 @@ func Edits(p Prog) []Edit {
 					}})
 				}
 			}
+			for di, fd := range s.Fields {
+				di := di
+				// (removing a field is not among the documented breaking changes)
+				out = append(out, Edit{"remove-field", f.Path + ":" + s.Name + "." + fd.Name, false, func(p *Prog) {
+					fs := p.Files[fi].Structs[si].Fields
+					p.Files[fi].Structs[si].Fields = append(append([]Field{}, fs[:di]...), fs[di+1:]...)
+				}})
+			}
+			if s.Kind != "union" && len(s.Fields) >= 1 {
+				// one commit that drops the last field and adds a required one: the field count
+				// does not grow, a required field has been added all the same
+				out = append(out, Edit{"swap-last-field-for-required", f.Path + ":" + s.Name, true, func(p *Prog) {
+					fs := p.Files[fi].Structs[si].Fields
+					p.Files[fi].Structs[si].Fields = append(append([]Field{}, fs[:len(fs)-1]...), Field{ID: maxID + 3, Req: true, Type: "i64", Name: "swappedIn"})
+				}})
+			}
 			if len(s.Fields) >= 2 {
 				out = append(out, Edit{"reorder-fields", f.Path + ":" + s.Name, false, func(p *Prog) {
 					fs := p.Files[fi].Structs[si].Fields
